@@ -48,7 +48,7 @@ Theorem jsc_genname_matches_source (v : bstr) (st : jstate) :
   let '(n', g) := src_soyjs_scope_genname (Z.of_N (j_n st)) v in
   jsc_genname v st = Ok (g, set_scope (j_scope st) (Z.to_N n') st) /\ n' = Z.of_N (j_n st + 1).
 Proof.
-  intros Hs. unfold src_soyjs_scope_genname. autounfold with src_helpers. cbv zeta. cbv iota.
+  intros Hs. unfold src_soyjs_scope_genname. repeat progress autounfold with src_helpers. cbv beta iota zeta.
   rewrite st_wrap64 by (unfold st_small in Hs; lia).
   replace (Z.of_N (j_n st) + 1)%Z with (Z.of_N (j_n st + 1)) by lia.
   rewrite st_dec_of_Z_of_N, N2Z.id. split; [|reflexivity].
@@ -80,46 +80,22 @@ Fixpoint st_jsc_find (s : list (list (bstr * bstr))) (v : bstr) : option bstr :=
 Lemma st_jsc_lookup_find s v : jsc_lookup s v = match st_jsc_find s v with Some g => g | None => [] end.
 Proof. induction s as [|f r IH]; cbn [jsc_lookup st_jsc_find]; [reflexivity|]. destruct (assoc_s v f); [reflexivity|exact IH]. Qed.
 
+(* scope.lookup walks s.stack from its end; gotrans (gotrans_norm.go: revRange) translates every spelling of such a walk
+   (`for i := range xs {.. xs[len(xs)-i-1] ..}`, `for i := len(xs)-1; i >= 0; i--`, `for d := len(xs); d > 0; d--
+   {.. xs[d-1] ..}`) as ONE list loop over `rev xs`, so the lemma is an induction on the model's stack. *)
 Lemma lookup_loop_matches (s : list (list (bstr * bstr))) (v : bstr) :
-  st_small (go_len s) ->
-  forall (rest : list (list (bstr * bstr))) (i : nat),
-    skipn i s = rest -> (i <= length s)%nat ->
-    src_soyjs_scope_lookup_loop1 (S (length rest)) (rev s) v (go_len s) (Z.of_nat i) =
-    Some (match st_jsc_find rest v with Some g => go_ret g | None => go_exit (go_len s) end).
+  src_soyjs_scope_lookup_loop1 s v =
+  Some (match st_jsc_find s v with Some g => go_ret g | None => go_exit tt end).
 Proof.
-  intros Hs rest. induction rest as [|f rest IH]; intros i E Hi.
-  - assert (i = length s) as ->.
-    { assert (length (skipn i s) = 0%nat) as L by now rewrite E. rewrite skipn_length in L. lia. }
-    cbn [src_soyjs_scope_lookup_loop1 st_jsc_find]. unfold go_len at 1 2.
-    replace (Z.ltb _ _) with false by lia. reflexivity.
-  - assert (i < length s)%nat as Hlt.
-    { assert (length (skipn i s) = S (length rest)) as L by now rewrite E. rewrite skipn_length in L. lia. }
-    cbn [length]. remember (S (length rest)) as fu eqn:Efu. cbn [src_soyjs_scope_lookup_loop1].
-    replace (Z.ltb (Z.of_nat i) (go_len s)) with true by (unfold go_len; lia).
-    rewrite st_go_len_rev.
-    unfold st_small in Hs.
-    rewrite (st_wrap64 (go_len s - Z.of_nat i)) by (unfold go_len in *; lia).
-    rewrite st_wrap64 by (unfold go_len in *; lia).
-    replace (go_len s - Z.of_nat i - 1)%Z with (go_len s - 1 - Z.of_nat i)%Z by lia.
-    rewrite go_index_rev by exact Hlt.
-    assert (nth_error s i = Some f) as ->.
-    { rewrite <- (firstn_skipn i s) at 1. rewrite E. rewrite nth_error_app2 by (rewrite firstn_length; lia).
-      rewrite firstn_length. replace (i - Nat.min i (length s))%nat with O by lia. reflexivity. }
-    cbn [go_bind]. cbv zeta. unfold go_has_s, go_lookup_s. cbn [st_jsc_find].
-    destruct (assoc_s v f) as [g|]; [reflexivity|].
-    rewrite st_wrap64 by (unfold go_len in *; lia).
-    replace (Z.of_nat i + 1)%Z with (Z.of_nat (S i)) by lia.
-    subst fu. apply IH; [|lia].
-    exact (st_skipn_S _ _ _ _ E).
+  induction s as [|f r IH]; [reflexivity|].
+  cbn [src_soyjs_scope_lookup_loop1 st_jsc_find]. cbv zeta. try unfold go_has_s. try unfold go_lookup_s.
+  destruct (assoc_s v f) as [g|]; [reflexivity|exact IH].
 Qed.
 
 Theorem jsc_lookup_matches_source (s : list (list (bstr * bstr))) (v : bstr) :
   st_small (go_len s) -> src_soyjs_scope_lookup (rev s) v = Some (jsc_lookup s v).
 Proof.
-  intros Hs. unfold src_soyjs_scope_lookup. cbv zeta. rewrite st_go_len_rev.
-  pose proof (lookup_loop_matches s v Hs s 0%nat eq_refl ltac:(lia)) as H.
-  replace (Z.to_nat (go_len s)) with (length s) by (unfold go_len; lia).
-  change (Z.of_nat 0) with 0%Z in H. rewrite H. rewrite st_jsc_lookup_find.
+  intros _. unfold src_soyjs_scope_lookup. cbv zeta. rewrite rev_involutive, lookup_loop_matches, st_jsc_lookup_find.
   destruct (st_jsc_find s v); reflexivity.
 Qed.
 
@@ -147,7 +123,7 @@ Theorem jsc_push_for_range_matches_source (v : bstr) (st : jstate) :
   let '(s', n', a, b0, c, d, e) := src_soyjs_scope_pushForRange (rev (j_scope st)) (Z.of_N (j_n st)) v in
   jsc_push_for_range v st = Ok ((a, b0, c, d, e), set_scope (rev s') (Z.to_N n') st).
 Proof.
-  intros Hn. unfold src_soyjs_scope_pushForRange. cbv zeta.
+  intros Hn. unfold src_soyjs_scope_pushForRange. repeat progress autounfold with src_helpers. cbv beta iota zeta.
   rewrite st_wrap64 by (unfold st_small in Hn; lia).
   replace (Z.of_N (j_n st) + 1)%Z with (Z.of_N (j_n st + 1)) by lia.
   rewrite st_dec_of_Z_of_N, N2Z.id, rev_app_distr, rev_involutive. rewrite !go_map_set_s_aset.
@@ -161,7 +137,7 @@ Theorem jsc_push_for_each_matches_source (v : bstr) (st : jstate) :
   let '(s', n', a, b0, c, d) := src_soyjs_scope_pushForEach (rev (j_scope st)) (Z.of_N (j_n st)) v in
   jsc_push_for_each v st = Ok ((a, b0, c, d), set_scope (rev s') (Z.to_N n') st).
 Proof.
-  intros Hn. unfold src_soyjs_scope_pushForEach. cbv zeta.
+  intros Hn. unfold src_soyjs_scope_pushForEach. repeat progress autounfold with src_helpers. cbv beta iota zeta.
   rewrite st_wrap64 by (unfold st_small in Hn; lia).
   replace (Z.of_N (j_n st) + 1)%Z with (Z.of_N (j_n st + 1)) by lia.
   rewrite st_dec_of_Z_of_N, N2Z.id, rev_app_distr, rev_involutive. rewrite !go_map_set_s_aset.
@@ -189,39 +165,21 @@ Proof.
 Qed.
 
 Lemma loop_loop_matches (s : list (list (bstr * bstr))) (v : bstr) :
-  st_small (go_len s) ->
-  forall (rest : list (list (bstr * bstr))) (k fuel : nat),
-    skipn k s = rest -> (k <= length s)%nat -> (S (length rest) <= fuel)%nat ->
-    src_soyjs_scope_loop_loop1 fuel (rev s) v (go_len s - 1 - Z.of_nat k)%Z =
-    Some (match st_loop_find rest v with Some p => go_ret p | None => go_exit (-1)%Z end).
+  src_soyjs_scope_loop_loop1 s v =
+  Some (match st_loop_find s v with Some p => go_ret p | None => go_exit tt end).
 Proof.
-  intros Hs rest. induction rest as [|f rest IH]; intros k fuel E Hk Hf; (destruct fuel as [|fuel]; [cbn [length] in Hf; lia|]).
-  - assert (k = length s) as ->.
-    { assert (length (skipn k s) = 0%nat) as L by now rewrite E. rewrite skipn_length in L. lia. }
-    cbn [src_soyjs_scope_loop_loop1 st_loop_find]. unfold go_len.
-    replace (Z.geb _ _) with false by lia. f_equal. f_equal. lia.
-  - assert (k < length s)%nat as Hlt.
-    { assert (length (skipn k s) = S (length rest)) as L by now rewrite E. rewrite skipn_length in L. lia. }
-    cbn [src_soyjs_scope_loop_loop1].
-    replace (Z.geb _ _) with true by (unfold go_len; lia).
-    rewrite go_index_rev by exact Hlt.
-    assert (nth_error s k = Some f) as ->.
-    { rewrite <- (firstn_skipn k s) at 1. rewrite E. rewrite nth_error_app2 by (rewrite firstn_length; lia).
-      rewrite firstn_length. replace (k - Nat.min k (length s))%nat with O by lia. reflexivity. }
-    cbn [go_bind]. cbv zeta. cbn [st_loop_find]. unfold st_frame_hit, go_lookup_s. cbv zeta.
-    rewrite bstr_eqb_nil_r. unfold jk_var, jk_index, jk_limit.
-    destruct (_ && _); [reflexivity|].
-    unfold st_small in Hs. rewrite st_wrap64 by (unfold go_len in *; lia).
-    replace (go_len s - 1 - Z.of_nat k - 1)%Z with (go_len s - 1 - Z.of_nat (S k))%Z by lia.
-    apply IH; [exact (st_skipn_S _ _ _ _ E)|lia|cbn [length] in Hf; lia].
+  induction s as [|f r IH]; [reflexivity|].
+  cbn [src_soyjs_scope_loop_loop1 st_loop_find]. cbv zeta. unfold st_frame_hit. try unfold go_lookup_s. cbv zeta.
+  rewrite ?bstr_eqb_nil_r. unfold jk_var, jk_index, jk_limit.
+  (* the cases are split on the MODEL's side: the frame's entries for the two hidden keys, the comparison with v *)
+  let kv := eval unfold jk_var in jk_var in destruct (assoc_s kv f) as [x|];
+  (let ki := eval unfold jk_index in jk_index in destruct (assoc_s ki f) as [[|c t]|]);
+  destruct (bstr_eqb _ v); cbn [andb orb negb]; first [reflexivity|exact IH].
 Qed.
 
 Theorem jsc_loop_matches_source (s : list (list (bstr * bstr))) (v : bstr) :
   st_small (go_len s) -> src_soyjs_scope_loop (rev s) v = Some (jsc_loop s v).
 Proof.
-  intros Hs. unfold src_soyjs_scope_loop. cbv zeta. rewrite st_go_len_rev.
-  unfold st_small in Hs. rewrite st_wrap64 by lia.
-  pose proof (loop_loop_matches s v Hs s 0%nat (S (S (Z.to_nat (go_len s - 1 - 0)))) eq_refl ltac:(lia)) as H.
-  change (Z.of_nat 0) with 0%Z in H. rewrite Z.sub_0_r in H. rewrite Z.sub_0_r. rewrite H by (unfold go_len; lia).
-  rewrite st_jsc_loop_find. destruct (st_loop_find s v); reflexivity.
+  intros _. unfold src_soyjs_scope_loop. cbv zeta. rewrite rev_involutive, loop_loop_matches, st_jsc_loop_find.
+  destruct (st_loop_find s v); reflexivity.
 Qed.
